@@ -157,7 +157,7 @@ def c_op_lines(lib, op):
             if row == "N3inout":
                 post.append(obs_arr_c(T, idx, v, len(vals)))
         elif row == "N3out":
-            decl.append("%s %s[8] = {0};" % (T, v))
+            decl.append("%s %s[24] = {0};" % (T, v))
             args.append(v)
             post.append(obs_arr_c(T, idx, v, len(outs[nm])))
     if op["kind"] in ("new", "make"):
@@ -201,8 +201,8 @@ def c_driver(lib):
 
 def obs_arr_c(T, slot, v, n):
     if T in FLT_TYPES:
-        return "{ double t[8]; int i; for (i = 0; i < %d; i++) t[i] = (double) %s[i]; vf_oad(%d, %d, t); }" % (n, v, slot, n)
-    return "{ long long t[8]; int i; for (i = 0; i < %d; i++) t[i] = (long long) %s[i]; vf_oai(%d, %d, t); }" % (n, v, slot, n)
+        return "{ double t[24]; int i; for (i = 0; i < %d; i++) t[i] = (double) %s[i]; vf_oad(%d, %d, t); }" % (n, v, slot, n)
+    return "{ long long t[24]; int i; for (i = 0; i < %d; i++) t[i] = (long long) %s[i]; vf_oai(%d, %d, t); }" % (n, v, slot, n)
 
 
 # ---------------------------------------------------------------------------
@@ -288,12 +288,17 @@ def f_op_lines(lib, op):
     for idx, p in enumerate(f["params"]):
         row, T, nm = p["row"], p["T"], p["name"]
         v = "v%d" % idx
-        if p.get("implied_of"):
-            continue                      # implied arguments are not part of the Fortran API
+        if p.get("implied_of") or row == "H1out":
+            continue                      # implied and hidden arguments are not part of the Fortran API
         if "nargs" in call and idx >= call["nargs"]:
             continue                      # omitted: the library's default applies
         if row in ("K1ptr", "K1ref"):
             args.append(fo(op["objs"][nm]))
+        elif row == "P2out":
+            decl.append("%s, pointer :: %s(%s)" % (f_decl(T), v, ",".join(":" * p["rank"])))
+            args.append(v)
+            post.append("call vf_oai(%d, %d, int(shape(%s), C_LONG_LONG))" % (idx, p["rank"], v))
+            post.append(obs_arr_f(T, idx, v))
         elif p.get("size_for") or row in ("N1", "N2in", "B1"):
             args.append(f_lit(T, ins[nm]))
         elif row == "S1c":
@@ -355,7 +360,8 @@ def f_op_lines(lib, op):
             if row == "N3inout":
                 post.append(obs_arr_f(T, idx, v))
         elif row == "N3out":
-            decl.append("%s :: %s(%d)" % (f_decl(T), v, len(outs[nm])))
+            # the documented dummy is an explicit-shape array with the declared extents
+            decl.append("%s :: %s(%s)" % (f_decl(T), v, ",".join("%d" % e for e in xlib.extents(p, ins))))
             args.append(v)
             post.append(obs_arr_f(T, idx, v))
     r = f["ret"]
@@ -375,11 +381,17 @@ def f_op_lines(lib, op):
             target = f_procname(lib, f)
         callx = "%s(%s)" % (target, ", ".join(args))
         stmt = ("rv = " + callx) if r is not None else ("call " + callx)
+        if r is not None and r["row"] == "P":
+            stmt = "rv => " + callx
     body.append("  block")
     if r is not None and op["kind"] not in ("new", "make"):
         if r["row"] in ("N", "B", "C"):
             decl.append("%s :: rv" % f_decl(r["T"]))
             post.insert(0, obs_f(r["T"], -1, "rv"))
+        elif r["row"] == "P":
+            decl.append("%s, pointer :: rv(%s)" % (f_decl(r["T"]), ",".join(":" * r["rank"])))
+            post.insert(0, obs_arr_f(r["T"], -1, "rv"))
+            post.insert(0, "call vf_oai(-1, %d, int(shape(rv), C_LONG_LONG))" % r["rank"])
         elif r["row"] == "V":
             decl.append("%s, allocatable :: rv(:)" % f_decl(r["T"]))
             post.insert(0, obs_arr_f(r["T"], -1, "rv"))
